@@ -105,6 +105,8 @@ structure Pkt where
   addrLen : Nat
   /-- length of the received data -/
   dataLen : Nat
+  /-- `PayloadLen` of the common header -/
+  payloadLen : Nat
   /-- the bytes after the address header up to `hdrBytes` (clipped to the data) -/
   region : Bytes
   /-- parameter: `resolveLocalDst` succeeds -/
@@ -153,6 +155,7 @@ def process (c : Cfg) (mac : Mac) (p : Pkt) : Res :=
   | none => .drop
   | some path =>
     if path.info.consDir = false then .drop
+    else if p.payloadLen ≠ p.dataLen - p.hdrBytes then .drop      -- int(PayloadLen) != len(Payload)
     else if p.ingress = 0 then outStage c mac p path
     else inStage c mac p path
 
